@@ -1,4 +1,4 @@
-"""Solver layer: discharge SMT obligations in killable worker processes.
+r"""Solver layer: discharge SMT obligations in killable worker processes.
 
 An obligation is a z3 formula `claim` together with a list of hypotheses; it is *discharged*
 when  hyps /\ not claim  is unsat.  The query is serialised to SMT-LIB 2 text in the parent,
